@@ -387,10 +387,6 @@ structure SetupPost (w : World) (targets : List Nat) (s : PS) (r : PS × Bool) :
   within : ∀ x ∈ r.1.setup, x ∈ s.setup ∨ ∃ t ∈ targets, x ∈ closure w.graph t
   done : r.2 = true → ∀ t ∈ targets, t ∈ r.1.setup
 
-theorem post_setupBases {w : World} (f : Nat → PS → PS × Bool)
-    (hf : ∀ b s, Inv w s → SetupPost w [b] s (f b s) ∨ True)
-    : True := trivial
-
 theorem post_setupLayerF {w : World} (hwf : WF w.graph) :
     ∀ (f l : Nat) (s : PS), l < f → Inv w s → SetupPost w [l] s (setupLayerF w f l s) := by
   intro f
@@ -498,5 +494,726 @@ theorem post_setupLayerF {w : World} (hwf : WF w.graph) :
 theorem post_setupLayer {w : World} (hwf : WF w.graph) (l : Nat) (s : PS) (h : Inv w s) :
     SetupPost w [l] s (setupLayer w l s) :=
   post_setupLayerF hwf (l + 1) l s (by omega) h
+
+
+/-! ## the test phase of a layer -/
+
+/-- the state after the events of one iteration have been logged -/
+def iterLogged (w : World) (o : Opts) (l : Nat) (tests : List Proto.TestDef) (s : PS) : PS :=
+  { s with
+    trace := s.trace ++ (Result.runTests (resultCfg w o l) tests {}).evs.map Ev.test
+    glog := s.glog ++ (Result.runTests (resultCfg w o l) tests {}).evs.map
+      (fun e => (Ev.test e, ({ setup := s.setup, layer := some l } : Snap))) }
+
+/-- … and after its results have been merged and the summary printed -/
+def iterDone (w : World) (o : Opts) (l : Nat) (tests : List Proto.TestDef) (s : PS) : PS :=
+  let r := Result.runTests (resultCfg w o l) tests {}
+  let s1 := iterLogged w o l tests s
+  PS.emit { s1 with
+      failures := s1.failures ++ r.failures ++ r.unexpected
+      errors := s1.errors ++ r.errors.map Err.test
+      skipped := s1.skipped + r.skipped.length
+      ran := r.testsRun }
+    (.summary r.testsRun (r.failures.length + r.unexpected.length) (r.errors.length + w.importErrors) r.skipped.length)
+
+theorem runIterations_succ (w : World) (o : Opts) (l : Nat) (tests : List Proto.TestDef) (n : Nat) (s : PS) :
+    runIterations w o l tests (n + 1) s =
+      if (Result.runTests (resultCfg w o l) tests {}).aborted then { iterLogged w o l tests s with aborted := true }
+      else if (Result.runTests (resultCfg w o l) tests {}).interrupted then { iterLogged w o l tests s with interrupted := true }
+      else if (Result.runTests (resultCfg w o l) tests {}).shouldStop then iterDone w o l tests s
+      else runIterations w o l tests n (iterDone w o l tests s) := by
+  rw [runIterations]
+  rfl
+
+theorem inv_iterLogged {w : World} (o : Opts) (l : Nat) (tests : List Proto.TestDef) {s : PS} (h : Inv w s)
+    (hset : ∀ x, x ∈ s.setup ↔ x ∈ closure w.graph l) : Inv w (iterLogged w o l tests s) := by
+  refine ⟨h.nodup, h.closed, ?_, ?_, ?_⟩
+  · intro p hp
+    rcases List.mem_append.1 hp with hp | hp
+    · exact h.log p hp
+    · obtain ⟨e, _, rfl⟩ := List.mem_map.1 hp
+      exact ⟨l, rfl, hset⟩
+  · show List.map Prod.fst (s.glog ++ _) = s.trace ++ _
+    simp [h.erase, Function.comp_def]
+  · intro x a b
+    show countSetUpOk x (s.trace ++ _) = countTearDown x (s.trace ++ _) + _
+    rw [countSetUpOk_append, countTearDown_append, countSetUpOk_tests, countTearDown_tests]
+    exact h.balance x a b
+
+theorem inv_iterDone {w : World} (o : Opts) (l : Nat) (tests : List Proto.TestDef) {s : PS} (h : Inv w s)
+    (hset : ∀ x, x ∈ s.setup ↔ x ∈ closure w.graph l) : Inv w (iterDone w o l tests s) := by
+  unfold iterDone
+  apply inv_summary
+  exact inv_iterLogged o l tests h hset
+
+theorem inv_runIterations {w : World} (o : Opts) (l : Nat) (tests : List Proto.TestDef) :
+    ∀ (n : Nat) (s : PS), Inv w s → (∀ x, x ∈ s.setup ↔ x ∈ closure w.graph l) →
+      Inv w (runIterations w o l tests n s) ∧ (runIterations w o l tests n s).setup = s.setup := by
+  intro n
+  induction n with
+  | zero => intro s h _; exact ⟨h, rfl⟩
+  | succ n ih =>
+    intro s h hset
+    rw [runIterations_succ]
+    split
+    · exact ⟨inv_iterLogged o l tests h hset, rfl⟩
+    · split
+      · exact ⟨inv_iterLogged o l tests h hset, rfl⟩
+      · split
+        · exact ⟨inv_iterDone o l tests h hset, rfl⟩
+        · have := ih (iterDone w o l tests s) (inv_iterDone o l tests h hset) hset
+          exact ⟨this.1, this.2.trans rfl⟩
+
+/-! ## `run_layer`, the layer loop, the whole process -/
+
+theorem needed_closed {G : Graph} (hwf : WF G) (l : Nat) :
+    ∀ d ∈ gather G l, ∀ x ∈ closure G d, x ∈ gather G l :=
+  fun d hd x hx => closure_trans hwf l d x hd hx
+
+def rlHeader (o : Opts) (l : Nat) (s : PS) : PS :=
+  match o.resume with
+  | some (_, 0) => s
+  | _ => s.emit (.header l)
+
+/-- the state in which the tests of layer `l` start -/
+def rlReady (w : World) (o : Opts) (l : Nat) (s : PS) : PS :=
+  (setupLayer w l (tearDownUnneeded w (gather w.graph l) false (rlHeader o l s)).1).1
+
+theorem runLayer_eq (w : World) (o : Opts) (l : Nat) (tests : List Proto.TestDef) (s : PS) :
+    runLayer w o l tests s =
+      if (tearDownUnneeded w (gather w.graph l) false (rlHeader o l s)).2 then
+        tearDownUnneeded w (gather w.graph l) false (rlHeader o l s)
+      else if !(setupLayer w l (tearDownUnneeded w (gather w.graph l) false (rlHeader o l s)).1).2 then
+        ({ rlReady w o l s with errors := (rlReady w o l s).errors ++ [.layerSetUp l] }, false)
+      else
+        ({ runIterations w o l tests (if o.repeat_ = 0 then 1 else o.repeat_) { rlReady w o l s with ran := 0 } with
+            ran := (rlReady w o l s).ran +
+              (runIterations w o l tests (if o.repeat_ = 0 then 1 else o.repeat_) { rlReady w o l s with ran := 0 }).ran },
+         false) := by
+  unfold runLayer rlHeader rlReady
+  rfl
+
+theorem inv_rlHeader {w : World} (o : Opts) (l : Nat) {s : PS} (h : Inv w s) : Inv w (rlHeader o l s) := by
+  unfold rlHeader
+  split
+  · exact h
+  · exact inv_header h l
+
+attribute [local irreducible] runIterations setupLayer tearDownUnneeded in
+theorem inv_runLayer {w : World} (hwf : WF w.graph) (o : Opts) (l : Nat) (tests : List Proto.TestDef)
+    {s : PS} (h : Inv w s) : Inv w (runLayer w o l tests s).1 := by
+  rw [runLayer_eq]
+  obtain ⟨i1, i2⟩ := inv_tearDownUnneeded hwf (gather w.graph l) false (inv_rlHeader o l h) (needed_closed hwf l)
+  by_cases hcan : (tearDownUnneeded w (gather w.graph l) false (rlHeader o l s)).2 = true
+  · rw [if_pos hcan]; exact i1
+  · rw [if_neg hcan]
+    have hcan' : (tearDownUnneeded w (gather w.graph l) false (rlHeader o l s)).2 = false := by simpa using hcan
+    have ps := post_setupLayer hwf l _ i1
+    by_cases hok : (setupLayer w l (tearDownUnneeded w (gather w.graph l) false (rlHeader o l s)).1).2 = true
+    · have hn : ¬ ((!(setupLayer w l (tearDownUnneeded w (gather w.graph l) false (rlHeader o l s)).1).2) = true) := by
+        simp [hok]
+      rw [if_neg hn]
+      have hset : ∀ x, x ∈ (rlReady w o l s).setup ↔ x ∈ closure w.graph l := by
+        intro x
+        constructor
+        · intro hx
+          rcases ps.within x hx with h1 | ⟨t, ht, hxt⟩
+          · exact ((i2 hcan' x).1 h1).2
+          · simp only [List.mem_singleton] at ht; subst ht; exact hxt
+        · intro hx
+          exact closure_subset_of_closed hwf ps.inv.closed l (ps.done hok l (by simp)) x hx
+      have hinv0 : Inv w { rlReady w o l s with ran := 0 } := by
+        show Inv' w (rlReady w o l s).setup (rlReady w o l s).trace (rlReady w o l s).glog
+        exact ps.inv
+      have hI := (inv_runIterations o l tests (if o.repeat_ = 0 then 1 else o.repeat_)
+        { rlReady w o l s with ran := 0 } hinv0 hset).1
+      revert hI
+      generalize runIterations w o l tests (if o.repeat_ = 0 then 1 else o.repeat_) { rlReady w o l s with ran := 0 } = R
+      intro hI
+      exact hI
+    · have hn : ((!(setupLayer w l (tearDownUnneeded w (gather w.graph l) false (rlHeader o l s)).1).2) = true) := by
+        simp [hok]
+      rw [if_pos hn]
+      exact ps.inv
+
+theorem inv_layerLoop {w : World} (hwf : WF w.graph) (o : Opts) :
+    ∀ (layers : List (Nat × List Proto.TestDef)) (s : PS), Inv w s → Inv w (layerLoop w o layers s).1
+  | [], s, h => h
+  | (l, tests) :: rest, s, h => by
+    rw [layerLoop]
+    have h1 := inv_runLayer hwf o l tests h
+    split
+    · exact h1
+    · split
+      · split
+        · exact h1
+        · exact inv_layerLoop hwf o rest _ h1
+      · split
+        · exact h1
+        · split
+          · exact h1
+          · exact inv_layerLoop hwf o rest _ h1
+
+theorem inv_spawnAll {w : World} (o : Opts) (cb : Nat → Bool) :
+    ∀ (rest : List (Nat × List Proto.TestDef)) (n : Nat) (s : PS), Inv w s → Inv w (spawnAll o cb rest n s)
+  | [], _, s, h => h
+  | (l, _) :: rest, n, s, h => by
+    rw [spawnAll]
+    split
+    · exact h
+    · apply inv_spawnAll o cb rest
+      have := inv_spawn h l n
+      split <;> exact this
+
+theorem inv_init (w : World) : Inv w {} :=
+  ⟨List.nodup_nil, fun _ h => by simp at h, fun _ h => by simp at h, rfl, fun _ _ _ => rfl⟩
+
+def fsStart (w : World) (o : Opts) : PS :=
+  if o.processes > 1 && o.resume.isNone then ({} : PS).emit (.summary 0 0 w.importErrors 0) else {}
+
+/-- the state after the layer loop of this process, with the layers left for `resume_tests` -/
+def fsLoop (w : World) (o : Opts) : PS × List (Nat × List Proto.TestDef) :=
+  if o.processes > 1 && o.resume.isNone then (fsStart w o, orderedLayers w o)
+  else layerLoop w o (orderedLayers w o) (fsStart w o)
+
+def fsSpawned (w : World) (o : Opts) (cb : Nat → Bool) : PS :=
+  if o.resume.isNone then spawnAll o cb (fsLoop w o).2 (if o.processes > 1 then 1 else 0) (fsLoop w o).1
+  else (fsLoop w o).1
+
+theorem finalState_eq (w : World) (o : Opts) (cb : Nat → Bool) :
+    finalState w o cb =
+      if (fsLoop w o).1.aborted || (fsLoop w o).1.interrupted then (fsLoop w o).1
+      else (tearDownUnneeded w [] true (fsSpawned w o cb)).1 := by
+  unfold finalState fsSpawned fsLoop fsStart
+  rfl
+
+theorem inv_fsStart (w : World) (o : Opts) : Inv w (fsStart w o) := by
+  unfold fsStart
+  split
+  · exact inv_summary (inv_init w) _ _ _ _
+  · exact inv_init w
+
+theorem inv_fsLoop {w : World} (hwf : WF w.graph) (o : Opts) : Inv w (fsLoop w o).1 := by
+  unfold fsLoop
+  split
+  · exact inv_fsStart w o
+  · exact inv_layerLoop hwf o _ _ (inv_fsStart w o)
+
+theorem inv_fsSpawned {w : World} (hwf : WF w.graph) (o : Opts) (cb : Nat → Bool) : Inv w (fsSpawned w o cb) := by
+  unfold fsSpawned
+  split
+  · exact inv_spawnAll o cb _ _ _ (inv_fsLoop hwf o)
+  · exact inv_fsLoop hwf o
+
+/-- the invariant holds in the final state of every process -/
+theorem inv_finalState {w : World} (hwf : WF w.graph) (o : Opts) (cb : Nat → Bool) :
+    Inv w (finalState w o cb) := by
+  rw [finalState_eq]
+  split
+  · exact inv_fsLoop hwf o
+  · exact (inv_tearDownUnneeded hwf [] true (inv_fsSpawned hwf o cb) (fun d hd => by simp at hd)).1
+
+/-! ## the property theorems -/
+
+/-- **C01_events** — in every process (parent, resumed child, `-j` child), for every layer graph,
+test assignment, fault oracle and option set: every event was emitted under a `setup_layers` that
+satisfies its guard, and the ghost log is exactly the trace. -/
+theorem C01_events (w : World) (hwf : WF w.graph) (o : Opts) (cb : Nat → Bool) :
+    (∀ p ∈ (finalState w o cb).glog, EvOk w.graph p) ∧
+    (finalState w o cb).glog.map (·.1) = (runProcess w o cb).trace :=
+  ⟨(inv_finalState hwf o cb).log, (inv_finalState hwf o cb).erase⟩
+
+/-- **C01_exact_stack** — whenever a test executes, the layers set up in that process are exactly the
+test's layer and its transitive bases. -/
+theorem C01_exact_stack (w : World) (hwf : WF w.graph) (o : Opts) (cb : Nat → Bool) (r : Result.REv) (g : Snap)
+    (h : (Ev.test r, g) ∈ (finalState w o cb).glog) :
+    ∃ l, g.layer = some l ∧ ∀ x, x ∈ g.setup ↔ x ∈ closure w.graph l :=
+  (inv_finalState hwf o cb).log _ h
+
+/-- **C01_setUp_guard** — a layer's `setUp` runs only while the layer is not set up and all of its
+bases are. -/
+theorem C01_setUp_guard (w : World) (hwf : WF w.graph) (o : Opts) (cb : Nat → Bool) (l : Nat) (ok : Bool) (g : Snap)
+    (h : (Ev.setUp l ok, g) ∈ (finalState w o cb).glog) :
+    l ∉ g.setup ∧ ∀ b ∈ w.graph.bases l, b ∈ g.setup :=
+  (inv_finalState hwf o cb).log _ h
+
+/-- **C01_tearDown_order** — a layer's `tearDown` runs only while it is set up and once every layer
+derived from it has been torn down. -/
+theorem C01_tearDown_order (w : World) (hwf : WF w.graph) (o : Opts) (cb : Nat → Bool) (l : Nat) (r : TD) (g : Snap)
+    (h : (Ev.tearDown l r, g) ∈ (finalState w o cb).glog) :
+    l ∈ g.setup ∧ ∀ d ∈ g.setup, d ≠ l → l ∉ closure w.graph d :=
+  (inv_finalState hwf o cb).log _ h
+
+
+/-! ## the end of the run -/
+
+theorem finalState_flags (w : World) (o : Opts) (cb : Nat → Bool)
+    (h : ((fsLoop w o).1.aborted || (fsLoop w o).1.interrupted) = true) :
+    ((runProcess w o cb).aborted || (runProcess w o cb).interrupted) = true := by
+  unfold runProcess outcomeOf
+  rw [finalState_eq, if_pos h]
+  exact h
+
+/-- **C01_all_torn_down** — when the run ends (it was not aborted), nothing is left in
+`setup_layers`: every layer that was set up has been through the tear-down loop. -/
+theorem C01_all_torn_down (w : World) (hwf : WF w.graph) (o : Opts) (cb : Nat → Bool)
+    (hok : ((runProcess w o cb).aborted || (runProcess w o cb).interrupted) = false) :
+    (runProcess w o cb).leftover = [] := by
+  by_cases hfl : ((fsLoop w o).1.aborted || (fsLoop w o).1.interrupted) = true
+  · rw [finalState_flags w o cb hfl] at hok; exact Bool.noConfusion hok
+  · show (finalState w o cb).setup = []
+    rw [finalState_eq, if_neg hfl]
+    have h2 := (inv_tearDownUnneeded hwf [] true (inv_fsSpawned hwf o cb) (fun d hd => by simp at hd)).2
+      (by unfold tearDownUnneeded; exact tearDownList_optional w _ _)
+    apply List.eq_nil_iff_forall_not_mem.2
+    intro x hx
+    have := (h2 x).1 hx
+    simp at this
+
+/-- **C01_balance** — … and for every layer (that has both hooks) the number of successful `setUp`
+calls equals the number of `tearDown` attempts: tearDown is attempted exactly once per set-up. -/
+theorem C01_balance (w : World) (hwf : WF w.graph) (o : Opts) (cb : Nat → Bool)
+    (hok : ((runProcess w o cb).aborted || (runProcess w o cb).interrupted) = false)
+    (l : Nat) (h1 : (w.info l).hasSetUp = true) (h2 : (w.info l).hasTearDown = true) :
+    countSetUpOk l (runProcess w o cb).trace = countTearDown l (runProcess w o cb).trace := by
+  have hb := (inv_finalState hwf o cb).balance l h1 h2
+  have hl : (finalState w o cb).setup = [] := C01_all_torn_down w hwf o cb hok
+  rw [hl] at hb
+  have hb' : countSetUpOk l (finalState w o cb).trace = countTearDown l (finalState w o cb).trace := by
+    simpa using hb
+  exact hb'
+
+/-! ## frozen after NotImplementedError -/
+
+def isNI : Ev → Bool
+  | .tearDown _ .notImpl => true
+  | _ => false
+
+def isRun : Ev → Bool
+  | .setUp _ _ => true
+  | .test _ => true
+  | _ => false
+
+/-- after a `tearDown` that raised NotImplementedError no `setUp` and no test event follows -/
+def Frozen (τ : List Ev) : Prop :=
+  ∀ pre e post, τ = pre ++ e :: post → isNI e = true → ∀ x ∈ post, isRun x = false
+
+def Phase2 (τ : List Ev) : Prop :=
+  ∃ a b, τ = a ++ b ∧ (∀ e ∈ a, isNI e = false) ∧ (∀ e ∈ b, isRun e = false)
+
+theorem frozen_of_phase2 {τ : List Ev} (h : Phase2 τ) : Frozen τ := by
+  obtain ⟨a, b, rfl, ha, hb⟩ := h
+  intro pre e post heq hni x hx
+  rcases List.append_eq_append_iff.1 heq with ⟨a', rfl, hb'⟩ | ⟨c', ha', hc⟩
+  · exact hb x (by rw [hb']; simp [hx])
+  · cases c' with
+    | nil =>
+      simp only [List.nil_append] at hc
+      exact hb x (by rw [← hc]; simp [hx])
+    | cons c cs =>
+      simp only [List.cons_append, List.cons.injEq] at hc
+      obtain ⟨rfl, _⟩ := hc
+      have := ha e (by rw [ha']; simp)
+      rw [this] at hni; exact Bool.noConfusion hni
+
+theorem phase2_of_noNI {τ : List Ev} (h : ∀ e ∈ τ, isNI e = false) : Phase2 τ :=
+  ⟨τ, [], by simp, h, by simp⟩
+
+theorem phase2_append {τ evs : List Ev} (h : Phase2 τ) (he : ∀ e ∈ evs, isRun e = false) : Phase2 (τ ++ evs) := by
+  obtain ⟨a, b, rfl, ha, hb⟩ := h
+  refine ⟨a, b ++ evs, by simp, ha, ?_⟩
+  intro e hm
+  rcases List.mem_append.1 hm with h | h
+  · exact hb e h
+  · exact he e h
+
+/-- the event of one round of the tear-down loop -/
+def tdEv (w : World) (l : Nat) (s : PS) : List Ev :=
+  if (w.info l).hasTearDown then [Ev.tearDown l (w.tearDownResult l (countTearDown l s.trace))] else []
+
+theorem tdOne_trace (w : World) (l : Nat) (s : PS) : (tdOne w l s).trace = s.trace ++ tdEv w l s := by
+  unfold tdOne tdEv
+  by_cases ht : (w.info l).hasTearDown = true
+  · simp only [ht, if_true]
+    split <;> rfl
+  · simp [ht]
+
+theorem tdEv_quiet (w : World) (l : Nat) (s : PS) : ∀ e ∈ tdEv w l s, isRun e = false := by
+  intro e he
+  unfold tdEv at he
+  split at he
+  · simp only [List.mem_singleton] at he; subst he; rfl
+  · simp at he
+
+theorem tdEv_noNI (w : World) (l : Nat) (s : PS) (h : tdStops w false l s = false) :
+    ∀ e ∈ tdEv w l s, isNI e = false := by
+  intro e he
+  unfold tdEv at he
+  split at he
+  · rename_i htd
+    simp only [List.mem_singleton] at he; subst he
+    unfold tdStops at h
+    simp only [htd, Bool.true_and, Bool.not_false, Bool.and_true, beq_eq_false_iff_ne, ne_eq] at h
+    unfold isNI
+    split
+    · rename_i heq
+      simp only [Ev.tearDown.injEq] at heq
+      exact absurd heq.2 h
+    · rfl
+  · simp at he
+
+/-- the tear-down loop appends only `tearDown` events; none of them is a NotImplementedError when
+the (non-optional) loop completes -/
+theorem tearDownList_trace (w : World) (opt : Bool) :
+    ∀ (order : List Nat) (s : PS), ∃ evs, (tearDownList w opt order s).1.trace = s.trace ++ evs ∧
+      (∀ e ∈ evs, isRun e = false) ∧
+      ((tearDownList w opt order s).2 = false → opt = false → ∀ e ∈ evs, isNI e = false)
+  | [], s => ⟨[], by simp [tearDownList], by simp, by simp⟩
+  | l :: ls, s => by
+    rw [tearDownList_cons]
+    have h1 := tdOne_trace w l s
+    by_cases hst : tdStops w opt l s = true
+    · rw [if_pos hst]
+      exact ⟨tdEv w l s, h1, tdEv_quiet w l s, fun hf => by simp at hf⟩
+    · rw [if_neg hst]
+      obtain ⟨evs, e1, e2, e3⟩ := tearDownList_trace w opt ls (tdOne w l s)
+      refine ⟨tdEv w l s ++ evs, by rw [e1, h1, List.append_assoc], ?_, ?_⟩
+      · intro e he
+        rcases List.mem_append.1 he with he | he
+        · exact tdEv_quiet w l s e he
+        · exact e2 e he
+      · intro hf ho e he
+        subst ho
+        rcases List.mem_append.1 he with he | he
+        · exact tdEv_noNI w l s (by simpa using hst) e he
+        · exact e3 hf rfl e he
+
+theorem setupLayerF_trace (w : World) :
+    ∀ (f l : Nat) (s : PS), ∃ evs, (setupLayerF w f l s).1.trace = s.trace ++ evs ∧ ∀ e ∈ evs, isNI e = false := by
+  intro f
+  induction f with
+  | zero => intro l s; exact ⟨[], by simp [setupLayerF], by simp⟩
+  | succ f ih =>
+    intro l s
+    have hbases : ∀ (bs : List Nat) (s : PS), ∃ evs,
+        (setupBases (setupLayerF w f) bs s).1.trace = s.trace ++ evs ∧ ∀ e ∈ evs, isNI e = false := by
+      intro bs
+      induction bs with
+      | nil => intro s; exact ⟨[], by simp [setupBases], by simp⟩
+      | cons b bs ihb =>
+        intro s
+        obtain ⟨e1, h1, n1⟩ := ih b s
+        rw [setupBases]
+        split
+        · obtain ⟨e2, h2, n2⟩ := ihb (setupLayerF w f b s).1
+          refine ⟨e1 ++ e2, by rw [h2, h1, List.append_assoc], ?_⟩
+          intro e he
+          rcases List.mem_append.1 he with he | he
+          · exact n1 e he
+          · exact n2 e he
+        · exact ⟨e1, h1, n1⟩
+    rw [setupLayerF]
+    split
+    · exact ⟨[], by simp, by simp⟩
+    · obtain ⟨e1, h1, n1⟩ := hbases (w.graph.bases l) s
+      simp only []
+      split
+      · exact ⟨e1, h1, n1⟩
+      · split
+        · split
+          · refine ⟨e1 ++ [_], by show _ ++ [_] = _; rw [h1, List.append_assoc], ?_⟩
+            intro e he
+            rcases List.mem_append.1 he with he | he
+            · exact n1 e he
+            · simp only [List.mem_singleton] at he; subst he; rfl
+          · refine ⟨e1 ++ [_], by show _ ++ [_] = _; rw [h1, List.append_assoc], ?_⟩
+            intro e he
+            rcases List.mem_append.1 he with he | he
+            · exact n1 e he
+            · simp only [List.mem_singleton] at he; subst he; rfl
+        · exact ⟨e1, h1, n1⟩
+
+theorem runIterations_trace (w : World) (o : Opts) (l : Nat) (tests : List Proto.TestDef) :
+    ∀ (n : Nat) (s : PS), ∃ evs, (runIterations w o l tests n s).trace = s.trace ++ evs ∧ ∀ e ∈ evs, isNI e = false := by
+  intro n
+  induction n with
+  | zero => intro s; exact ⟨[], by simp [runIterations], by simp⟩
+  | succ n ih =>
+    intro s
+    have hlog : ∀ e ∈ (Result.runTests (resultCfg w o l) tests {}).evs.map Ev.test, isNI e = false := by
+      intro e he; obtain ⟨r, _, rfl⟩ := List.mem_map.1 he; rfl
+    have hdone : ∃ evs, (iterDone w o l tests s).trace = s.trace ++ evs ∧ ∀ e ∈ evs, isNI e = false := by
+      refine ⟨(Result.runTests (resultCfg w o l) tests {}).evs.map Ev.test ++
+        [.summary (Result.runTests (resultCfg w o l) tests {}).testsRun
+          ((Result.runTests (resultCfg w o l) tests {}).failures.length + (Result.runTests (resultCfg w o l) tests {}).unexpected.length)
+          ((Result.runTests (resultCfg w o l) tests {}).errors.length + w.importErrors)
+          (Result.runTests (resultCfg w o l) tests {}).skipped.length],
+        by unfold iterDone iterLogged PS.emit; simp only [List.append_assoc], ?_⟩
+      intro e he
+      rcases List.mem_append.1 he with he | he
+      · exact hlog e he
+      · simp only [List.mem_singleton] at he; subst he; rfl
+    rw [runIterations_succ]
+    split
+    · exact ⟨_, rfl, hlog⟩
+    · split
+      · exact ⟨_, rfl, hlog⟩
+      · split
+        · exact hdone
+        · obtain ⟨e1, h1, n1⟩ := hdone
+          obtain ⟨e2, h2, n2⟩ := ih (iterDone w o l tests s)
+          refine ⟨e1 ++ e2, by rw [h2, h1, List.append_assoc], ?_⟩
+          intro e he
+          rcases List.mem_append.1 he with he | he
+          · exact n1 e he
+          · exact n2 e he
+
+theorem rlHeader_trace (o : Opts) (l : Nat) (s : PS) :
+    ∃ evs, (rlHeader o l s).trace = s.trace ++ evs ∧ (∀ e ∈ evs, isNI e = false) ∧ (∀ e ∈ evs, isRun e = false) := by
+  unfold rlHeader
+  split
+  · exact ⟨[], by simp, by simp, by simp⟩
+  · exact ⟨[.header l], rfl, by simp [isNI], by simp [isRun]⟩
+
+/-- what `run_layer` appends: only quiet events when it ends with `CanNotTearDown`, no
+NotImplementedError event otherwise -/
+theorem runLayer_trace (w : World) (o : Opts) (l : Nat) (tests : List Proto.TestDef) (s : PS) :
+    ∃ evs, (runLayer w o l tests s).1.trace = s.trace ++ evs ∧
+      ((runLayer w o l tests s).2 = true → ∀ e ∈ evs, isRun e = false) ∧
+      ((runLayer w o l tests s).2 = false → ∀ e ∈ evs, isNI e = false) := by
+  rw [runLayer_eq]
+  obtain ⟨e0, h0, n0, r0⟩ := rlHeader_trace o l s
+  obtain ⟨e1, h1, r1, n1⟩ : ∃ evs, (tearDownUnneeded w (gather w.graph l) false (rlHeader o l s)).1.trace =
+      (rlHeader o l s).trace ++ evs ∧ (∀ e ∈ evs, isRun e = false) ∧
+      ((tearDownUnneeded w (gather w.graph l) false (rlHeader o l s)).2 = false → false = false → ∀ e ∈ evs, isNI e = false) := by
+    unfold tearDownUnneeded; exact tearDownList_trace w false _ _
+  by_cases hcan : (tearDownUnneeded w (gather w.graph l) false (rlHeader o l s)).2 = true
+  · rw [if_pos hcan]
+    refine ⟨e0 ++ e1, by rw [h1, h0, List.append_assoc], fun _ e he => ?_, fun hf => by rw [hcan] at hf; exact Bool.noConfusion hf⟩
+    rcases List.mem_append.1 he with he | he
+    · exact r0 e he
+    · exact r1 e he
+  · rw [if_neg hcan]
+    have hcan' : (tearDownUnneeded w (gather w.graph l) false (rlHeader o l s)).2 = false := by simpa using hcan
+    obtain ⟨e2, h2, n2⟩ : ∃ evs, (rlReady w o l s).trace =
+        (tearDownUnneeded w (gather w.graph l) false (rlHeader o l s)).1.trace ++ evs ∧ ∀ e ∈ evs, isNI e = false := by
+      unfold rlReady setupLayer; exact setupLayerF_trace w _ _ _
+    have n012 : ∀ e ∈ e0 ++ e1 ++ e2, isNI e = false := by
+      intro e he
+      rcases List.mem_append.1 he with he | he
+      · rcases List.mem_append.1 he with he | he
+        · exact n0 e he
+        · exact n1 hcan' rfl e he
+      · exact n2 e he
+    split
+    · refine ⟨e0 ++ e1 ++ e2, ?_, fun hf => Bool.noConfusion hf, fun _ => n012⟩
+      show (rlReady w o l s).trace = _
+      rw [h2, h1, h0]; simp only [List.append_assoc]
+    · obtain ⟨e3, h3, n3⟩ := runIterations_trace w o l tests (if o.repeat_ = 0 then 1 else o.repeat_) { rlReady w o l s with ran := 0 }
+      refine ⟨e0 ++ e1 ++ e2 ++ e3, ?_, fun hf => Bool.noConfusion hf, fun _ e he => ?_⟩
+      · show (runIterations w o l tests (if o.repeat_ = 0 then 1 else o.repeat_) { rlReady w o l s with ran := 0 }).trace = _
+        rw [h3]
+        show (rlReady w o l s).trace ++ e3 = _
+        rw [h2, h1, h0]; simp only [List.append_assoc]
+      · rcases List.mem_append.1 he with he | he
+        · exact n012 e he
+        · exact n3 e he
+
+theorem phase2_layerLoop (w : World) (o : Opts) :
+    ∀ (layers : List (Nat × List Proto.TestDef)) (s : PS), (∀ e ∈ s.trace, isNI e = false) →
+      (o.resume.isSome = true → layers.length ≤ 1) → Phase2 (layerLoop w o layers s).1.trace
+  | [], s, h, _ => phase2_of_noNI h
+  | (l, tests) :: rest, s, h, hone => by
+    rw [layerLoop]
+    obtain ⟨evs, ht, hq, hn⟩ := runLayer_trace w o l tests s
+    have hcase : Phase2 (runLayer w o l tests s).1.trace := by
+      rw [ht]
+      by_cases hc : (runLayer w o l tests s).2 = true
+      · exact phase2_append (phase2_of_noNI h) (hq hc)
+      · apply phase2_of_noNI
+        intro e he
+        rcases List.mem_append.1 he with he | he
+        · exact h e he
+        · exact hn (by simpa using hc) e he
+    split
+    · exact hcase
+    · split
+      · cases hres : o.resume with
+        | none => exact hcase
+        | some p =>
+          have : rest = [] := by
+            have hl := hone (by rw [hres]; rfl)
+            simp only [List.length_cons] at hl
+            exact List.eq_nil_of_length_eq_zero (by omega)
+          subst this
+          simp only [layerLoop]
+          exact hcase
+      · rename_i hc
+        have hnoni : ∀ e ∈ (runLayer w o l tests s).1.trace, isNI e = false := by
+          rw [ht]
+          intro e he
+          rcases List.mem_append.1 he with he | he
+          · exact h e he
+          · exact hn (by simpa using hc) e he
+        split
+        · exact hcase
+        · split
+          · exact hcase
+          · exact phase2_layerLoop w o rest _ hnoni (fun hr => by have := hone hr; simp only [List.length_cons] at this; omega)
+
+theorem spawnAll_trace_quiet (o : Opts) (cb : Nat → Bool) :
+    ∀ (rest : List (Nat × List Proto.TestDef)) (n : Nat) (s : PS),
+      ∃ evs, (spawnAll o cb rest n s).trace = s.trace ++ evs ∧ ∀ e ∈ evs, isRun e = false
+  | [], _, s => ⟨[], by simp [spawnAll], by simp⟩
+  | (l, _) :: rest, n, s => by
+    rw [spawnAll]
+    split
+    · exact ⟨[], by simp, by simp⟩
+    · have hx : ∀ (s' : PS), s'.trace = s.trace ++ [.spawn l n] →
+          ∃ evs, (spawnAll o cb rest (n + 1) s').trace = s.trace ++ evs ∧ ∀ e ∈ evs, isRun e = false := by
+        intro s' hs'
+        obtain ⟨e2, h2, q2⟩ := spawnAll_trace_quiet o cb rest (n + 1) s'
+        refine ⟨[.spawn l n] ++ e2, by rw [h2, hs', List.append_assoc], ?_⟩
+        intro e he
+        rcases List.mem_append.1 he with he | he
+        · simp only [List.mem_singleton] at he; subst he; rfl
+        · exact q2 e he
+      split <;> exact hx _ rfl
+
+/-- a child process has at most one layer to run (keys of `tests_by_layer_name` are distinct) -/
+theorem child_one_layer (w : World) (o : Opts) (hr : o.resume.isSome = true) :
+    (orderedLayers w o).length ≤ 1 := by
+  cases hres : o.resume with
+  | none => rw [hres] at hr; exact Bool.noConfusion hr
+  | some p =>
+  obtain ⟨l, n⟩ := p
+  unfold orderedLayers
+  simp only [hres]
+  have honce := C10_once w.graph ((w.groups.filter (fun (g : Nat × List Proto.TestDef) => g.1 == l)).map (·.1))
+  have hall : ∀ x ∈ orderByBases w.graph ((w.groups.filter (fun (g : Nat × List Proto.TestDef) => g.1 == l)).map (·.1)), x = l := by
+    intro x hx
+    have := (honce.2 x).1 hx
+    obtain ⟨g, hg', rfl⟩ := List.mem_map.1 this
+    simpa using (List.mem_filter.1 hg').2
+  have hlen : (orderByBases w.graph ((w.groups.filter (fun (g : Nat × List Proto.TestDef) => g.1 == l)).map (·.1))).length ≤ 1 := by
+    generalize orderByBases w.graph ((w.groups.filter (fun (g : Nat × List Proto.TestDef) => g.1 == l)).map (·.1)) = L at honce hall
+    match L, honce.1, hall with
+    | [], _, _ => simp
+    | [_], _, _ => simp
+    | a :: b :: _, hnd, hall =>
+      have ha := hall a (by simp)
+      have hb := hall b (by simp)
+      rw [List.nodup_cons] at hnd
+      exact absurd (by simp [ha, hb]) hnd.1
+  exact Nat.le_trans (List.length_filterMap_le _ _) hlen
+
+/-- **C01_frozen** — once a `tearDown` has raised NotImplementedError, no further test runs and no
+further layer `setUp` is called in that process (parent or child). -/
+theorem C01_frozen (w : World) (o : Opts) (cb : Nat → Bool) :
+    Frozen (runProcess w o cb).trace := by
+  apply frozen_of_phase2
+  show Phase2 (finalState w o cb).trace
+  have hstart : ∀ e ∈ (fsStart w o).trace, isNI e = false := by
+    unfold fsStart
+    split
+    · intro e he
+      have : e = .summary 0 0 w.importErrors 0 := by simpa [PS.emit] using he
+      subst this; rfl
+    · intro e he; simp at he
+  have hloop : Phase2 (fsLoop w o).1.trace := by
+    unfold fsLoop
+    split
+    · exact phase2_of_noNI hstart
+    · exact phase2_layerLoop w o _ _ hstart (child_one_layer w o)
+  rw [finalState_eq]
+  split
+  · exact hloop
+  · have hsp : Phase2 (fsSpawned w o cb).trace := by
+      unfold fsSpawned
+      split
+      · obtain ⟨evs, h1, h2⟩ := spawnAll_trace_quiet o cb (fsLoop w o).2 (if o.processes > 1 then 1 else 0) (fsLoop w o).1
+        rw [h1]; exact phase2_append hloop h2
+      · exact hloop
+    obtain ⟨evs, h1, h2, _⟩ : ∃ evs, (tearDownUnneeded w [] true (fsSpawned w o cb)).1.trace =
+        (fsSpawned w o cb).trace ++ evs ∧ (∀ e ∈ evs, isRun e = false) ∧ _ := by
+      unfold tearDownUnneeded; exact tearDownList_trace w true _ _
+    rw [h1]; exact phase2_append hsp h2
+
+/-! ## the remaining layers run in children -/
+
+theorem layerLoop_suffix (w : World) (o : Opts) :
+    ∀ (layers : List (Nat × List Proto.TestDef)) (s : PS), (layerLoop w o layers s).2 <:+ layers
+  | [], _ => by simp [layerLoop]
+  | (l, tests) :: rest, s => by
+    rw [layerLoop]
+    split
+    · exact List.nil_suffix
+    · split
+      · split
+        · exact List.suffix_refl _
+        · exact (layerLoop_suffix w o rest _).trans (List.suffix_cons _ _)
+      · split
+        · exact List.suffix_cons _ _
+        · split
+          · exact List.nil_suffix
+          · exact (layerLoop_suffix w o rest _).trans (List.suffix_cons _ _)
+
+/-- the spawn events, numbered from `n` -/
+def spawnEvs : List (Nat × List Proto.TestDef) → Nat → List Ev
+  | [], _ => []
+  | (l, _) :: rest, n => .spawn l n :: spawnEvs rest (n + 1)
+
+/-- **C01_rest_in_children** — without `--stop-on-error` (or under `-j`), every layer the layer loop
+left over (from the one that hit `CanNotTearDown` on) is handed to a fresh subprocess, each exactly
+once, in order, with consecutive resume numbers. -/
+theorem C01_rest_in_children (o : Opts) (cb : Nat → Bool) (hx : o.stopOnError = false ∨ o.processes > 1) :
+    ∀ (rest : List (Nat × List Proto.TestDef)) (n : Nat) (s : PS),
+      (spawnAll o cb rest n s).trace = s.trace ++ spawnEvs rest n
+  | [], _, s => by simp [spawnAll, spawnEvs]
+  | (l, ts) :: rest, n, s => by
+    rw [spawnAll]
+    have hc : ¬ ((o.stopOnError && decide (o.processes ≤ 1) && (!s.failures.isEmpty || !s.errors.isEmpty)) = true) := by
+      rcases hx with h | h
+      · simp [h]
+      · have : ¬ o.processes ≤ 1 := by omega
+        simp [this]
+    rw [if_neg hc]
+    have hx' : ∀ (s' : PS), s'.trace = s.trace ++ [.spawn l n] →
+        (spawnAll o cb rest (n + 1) s').trace = s.trace ++ spawnEvs ((l, ts) :: rest) n := by
+      intro s' hs'
+      rw [C01_rest_in_children o cb hx rest (n + 1) s', hs']
+      simp [spawnEvs]
+    split <;> exact hx' _ rfl
+
+
+/-! ## non-vacuity: a diamond with a tear-down that is not supported, one that raises, a failing set-up -/
+
+def c1G : Graph :=
+  { bases := fun l => match l with | 1 => [0] | 2 => [0] | 3 => [1, 2] | _ => [], name := fun n => [n], unit := 99 }
+
+def c1T (i : Nat) : Proto.TestDef := { id := i }
+
+def c1W : World where
+  graph := c1G
+  info := fun _ => ⟨true, true, false, false⟩
+  setUpRaises := fun l k => l == 2 && k == 0
+  tearDownResult := fun l _ => if l == 1 then .notImpl else if l == 0 then .raised else .ok
+  groups := [(1, [c1T 1]), (3, [c1T 3]), (2, [c1T 2])]
+  importErrors := 0
+
+theorem c1G_wf : WF c1G := by
+  intro l b hb
+  unfold c1G at hb
+  simp only at hb
+  split at hb <;> simp at hb <;> omega
+
+-- the parent: runs layer 1, cannot tear it down for layer 2, hands layers 2 and 3 to children
+example : (runProcess c1W {} (fun _ => false)).trace =
+    [.header 1, .setUp 0 true, .setUp 1 true, .test (.tstart 1), .test (.code 1 .setUp), .test (.code 1 .body),
+     .test (.code 1 .tearDown), .test (.passed 1), .test (.tend 1), .summary 1 0 0 0, .header 2,
+     .tearDown 1 .notImpl, .spawn 2 0, .spawn 3 1, .tearDown 0 .raised] := by decide
+-- the child for layer 3: the first set-up of layer 2 fails, nothing of layer 3 runs, layers 0 and 1 are torn down
+example : (runProcess c1W { resume := some (3, 1) } (fun _ => false)).trace =
+    [.header 3, .setUp 0 true, .setUp 1 true, .setUp 2 false, .tearDown 1 .notImpl, .tearDown 0 .raised] := by decide
 
 end Ztr.Runner
